@@ -490,6 +490,15 @@ def check_grammar(acc, spec, g, rng, tier, origin, texts=None, fam=None, gen_eve
                         # the two oracles disagree with each other: harness doubt, not a verdict
                         acc.count('oracle_disagreement')
                         acc.note(f'PC vs REF disagree on {L.grammar_text(g)!r} {text!r}: PC={cc} REF={a}')
+                    elif sorted(h for h in r.lr_heads if h not in lrec_marked and h != min(sccs.get(h, {h}))):
+                        # the recorded finding again, met on this path: REF and the operator-table oracle agree, the real
+                        # parser differs, REF grew a head that TatSu does not mark (its marked leader is the smallest name
+                        # of the cycle) - and the AST comparison above was left out because the execution carried a flag
+                        nl = sorted(h for h in r.lr_heads if h not in lrec_marked and h != min(sccs.get(h, {h})))
+                        acc.violation('ast/trigger:lr-entered-through-non-leader',
+                                      f'indirect left recursion entered through a rule that is not the marked leader ({nl}): '
+                                      f'{L.grammar_text(g)!r} input {text!r} REF=PC={cc} TATSU={b}',
+                                      D.witness(g, start, text, cc, b, r, origin=origin))
                     else:
                         acc.violation('pc/' + kinds,
                                       f'{label}not the left-associative tree over the longest prefix: {L.grammar_text(g)!r} input {text!r} expected {cc} got {b}',
